@@ -143,8 +143,7 @@ static std::string do_run(std::istringstream& in) {
   unsigned modulus = (unsigned)modulus_ll;
   std::vector<long long> data; long long x;
   while (in >> x) data.push_back(x);
-  double thr = (thr_s == "inf") ? INF : val_of_key(std::stoll(thr_s), sq);
-  if (thr_s == "max") thr = std::numeric_limits<double>::max();
+  double thr = (thr_s == "inf") ? INF : (thr_s == "max") ? std::numeric_limits<double>::max() : val_of_key(std::stoll(thr_s), sq);
   size_t tri = (size_t)n * (n - 1) / 2;
   return guarded([&]() -> std::string {
     if (form == "lower") { if (data.size() != tri) return "badinput"; return run_auto(Lower(vals(data, sq)), dim_max, thr, modulus, sq); }
@@ -266,13 +265,23 @@ static std::string do_enc(std::istringstream& in) {
   });
 }
 
+// watchdog: a line normally takes milliseconds; a line that is still running after 240 s of wall time is reported as a hang
+static void on_alarm(int) {
+  vh::flush();
+  const char* m = "CRASH HANG\n";
+  ssize_t k = ::write(1, m, strlen(m)); (void)k;
+  _exit(70);
+}
+
 int main() {
   vh::install();
+  signal(SIGALRM, on_alarm);
   std::string line;
   while (std::getline(std::cin, line)) {
     std::istringstream in(line);
     std::string op; in >> op;
     std::string ans;
+    alarm(240);
     if (op == "R") ans = do_run(in);
     else if (op == "S") ans = do_second(in);
     else if (op == "CM") ans = do_cm(in);
@@ -280,6 +289,7 @@ int main() {
     else if (op == "ENC") ans = do_enc(in);
     else if (op == "G") ans = "ok";
     else ans = "badop";
+    alarm(0);
     vh::emit(ans);
     vh::flush();
   }
